@@ -188,6 +188,7 @@ type Exec struct {
 	AxiomNames []string
 	resultMode bool
 	bigRefSyms []*Term // *big.Int references returned by callees so far (results of contracts)
+	pendingCallee     *ssa.Function // the callee whose contract is being applied (nil: interface method)
 	pendingParamTypes []types.Type // parameter types of the callee whose contract is being applied (set by callFn)
 	SymRangesMap map[string][2]*big.Int // value ranges of this function's machine-integer symbols (see SymRanges)
 	ArrayPrefixMap map[string]arrayPrefix // arrays known to extend older arrays (see ArrayPrefix)
